@@ -746,11 +746,14 @@ theorem C09_disk_usage_call (e : Nat) (st : StatVfs) :
 /-- `assert colon > 0`: the model's `netLine` raises AssertionError exactly for "no colon" and "colon at
     index 0" — the fact says the smallest accepted index is 1 -/
 theorem C09_net_colon_assert :
-    Gen.C09.netMinColon = 1 ∧ netLine netCfg [58, 32, 49] = .err .assertionError ∧
+    Gen.C09.netMinColon = 1 ∧
+    -- `fields = line[colon + 1:]…`: the counters start right after the colon (the model's `line.drop (colon + 1)`;
+    -- kernels before 2.6 printed "%6s:%8lu", a wide first counter touches the colon)
+    Gen.C09.netFieldsOffset = 1 ∧ netLine netCfg [58, 32, 49] = .err .assertionError ∧
     netLine netCfg [32, 49] = .err .assertionError ∧
     -- index 1 passes the assertion (and then fails for having one value instead of sixteen)
     netLine netCfg [97, 58, 32, 49] = .err .valueError :=
-  ⟨by decide, by rfl, by rfl, by rfl⟩
+  ⟨by decide, by decide, by rfl, by rfl, by rfl⟩
 
 /-- a call without `perdisk` / `pernic` asks for the system-wide form (`C09_net … false`, `C09_disk … false`) -/
 theorem C09_front_defaults : Gen.C09.frontPerDefault = ["False", "False"] := by decide
